@@ -9,6 +9,7 @@ mod r_iter;
 mod r_mm;
 mod r_pp;
 mod r_route;
+mod r_tw;
 mod rec_cost;
 mod rec_lib;
 mod util;
@@ -148,6 +149,10 @@ fn main() {
         "replay-route" => {
             let vs = read_ndjson(args.val("--in").expect("--in"));
             r_route::replay(&vs, &rep, args.val("--force").unwrap_or("avx2"));
+        }
+        "replay-tw" => {
+            let vs = read_ndjson(args.val("--in").expect("--in"));
+            r_tw::replay(&vs, &rep, threads);
         }
         "replay-iter" => {
             let vs = read_ndjson(args.val("--in").expect("--in"));
